@@ -190,6 +190,26 @@ fn enrich(rng: &mut Rng, z: &mut ZoneC) {
             z.insert(RRset { name: nm(&[b"ns", b"zz"], &apex), rtype: T_A, ttl: 60, rdatas: vec![vec![192, 0, 2, 53]] });
         }
     }
+    if rng.chance(2, 3) {
+        // types outside window 0 (CAA, URI, TA, DLV, private use): several of one window at one name, several windows at one
+        // name, so that a bitmap has blocks behind the first one that are extended and inserted into
+        let cuts: Vec<Vec<u8>> = z.names().into_iter().filter(|n| z.is_cut(n)).collect();
+        let hosts: Vec<Vec<u8>> = z.names().into_iter().filter(|n| !cuts.iter().any(|c| is_at_or_below(n, c)) && z.get(n, T_CNAME).is_none()).collect();
+        for _ in 0..rng.range(1, 4) {
+            let n = rng.pick(&hosts).clone();
+            let pool: [u16; 18] = [256, 257, 258, 259, 300, 511, 512, 513, 767, 1000, 32768, 32769, 32770, 65280, 65281, 65300, 65400, 65534];
+            let k = rng.range(1, 6);
+            let mut ts: Vec<u16> = (0..k).map(|_| *rng.pick(&pool)).collect();
+            if rng.bool() {
+                // in the order the blocks will not be met in
+                ts.sort_unstable_by(|a, b| b.cmp(a));
+            }
+            for t in ts {
+                let rd = if t == 257 { let mut v = vec![0, 5]; v.extend_from_slice(b"issue"); v.extend_from_slice(b"ca.example"); v } else { vec![1, 2, 3, (t & 0xff) as u8] };
+                z.insert(RRset { name: n.clone(), rtype: t, ttl: 300, rdatas: vec![rd] });
+            }
+        }
+    }
     if rng.bool() {
         // an empty non-terminal shared by two branches
         for l in [&b"x"[..], b"y"] {
@@ -197,6 +217,46 @@ fn enrich(rng: &mut Rng, z: &mut ZoneC) {
             z.insert(RRset { name: n, rtype: T_TXT, ttl: 60, rdatas: vec![vec![1, b'e']] });
         }
     }
+}
+
+/// The accessors of a generated bitmap against its octets: `contains` for every type of every window the bitmap has,
+/// of the window behind each and of window 0, and the iterator against the set bits.
+fn probe_bitmap<O: AsRef<[u8]>>(bm: &domain::rdata::dnssec::RtypeBitmap<O>, octets: &[u8]) -> Result<u64, String> {
+    let mut set: BTreeSet<u16> = BTreeSet::new();
+    let mut windows: BTreeSet<u8> = BTreeSet::new();
+    windows.insert(0);
+    let mut p = 0;
+    while p + 2 <= octets.len() {
+        let (wn, l) = (octets[p], octets[p + 1] as usize);
+        if l == 0 || l > 32 || p + 2 + l > octets.len() {
+            return Err(format!("malformed bitmap {}", hex(octets)));
+        }
+        windows.insert(wn);
+        windows.insert(wn.wrapping_add(1));
+        for (i, b) in octets[p + 2..p + 2 + l].iter().enumerate() {
+            for bit in 0..8 {
+                if b & (0x80 >> bit) != 0 {
+                    set.insert((wn as u16) << 8 | (i * 8 + bit) as u16);
+                }
+            }
+        }
+        p += 2 + l;
+    }
+    let mut n = 0;
+    for wn in windows {
+        for lo in 0..=255u16 {
+            let t = (wn as u16) << 8 | lo;
+            n += 1;
+            if bm.contains(domain::base::iana::Rtype::from_int(t)) != set.contains(&t) {
+                return Err(format!("contains(TYPE{}) is {} for the bitmap {}", t, !set.contains(&t), hex(octets)));
+            }
+        }
+    }
+    let it: Vec<u16> = bm.iter().map(|t| t.to_int()).collect();
+    if it != set.iter().copied().collect::<Vec<_>>() {
+        return Err(format!("iterating the bitmap {} gives {:?}", hex(octets), it));
+    }
+    Ok(n)
 }
 
 fn nsec_case(c: &mut Ctx, fam: &str, idx: u64, z: &ZoneC, assume_dnskey: bool) {
@@ -239,6 +299,19 @@ fn nsec_case(c: &mut Ctx, fam: &str, idx: u64, z: &ZoneC, assume_dnskey: bool) {
             (w::lower(r.owner().as_slice()), w::lower(&next), bm, r.ttl().as_secs())
         })
         .collect();
+    for (r, o) in nsecs.iter().zip(obs.iter()) {
+        match ctx::catch(|| probe_bitmap(r.data().types(), &o.2)) {
+            Ok(Ok(n)) => c.count("bitmap_membership_probes", n),
+            Ok(Err(e)) => {
+                c.violation("nsec:bitmap-accessors", &format!("NSEC at {}: {}", w::name_text(&o.0), e), c.replay_of(fam, idx, ex()));
+                return;
+            }
+            Err(pi) => {
+                c.violation(&format!("panic:{}", pi.site()), &format!("panic probing a generated type bitmap: {} at {}:{}", pi.msg, pi.file, pi.line), c.replay_of(fam, idx, ex()));
+                return;
+            }
+        }
+    }
     // expected
     let mut owners: Vec<Vec<u8>> = auth.owners.keys().cloned().collect();
     owners.sort_by(|a, b| w::canonical_name_cmp(a, b));
@@ -444,6 +517,17 @@ fn nsec3_case(c: &mut Ctx, fam: &str, idx: u64, rng: &mut Rng, z: &ZoneC, log: &
         if rd[0] != 1 {
             c.violation("nsec3:hash-algorithm", "NSEC3 hash algorithm is not SHA-1", c.replay_of(fam, idx, ex()));
             return;
+        }
+        match ctx::catch(|| probe_bitmap(d.types(), &bm)) {
+            Ok(Ok(n)) => c.count("bitmap_membership_probes", n),
+            Ok(Err(e)) => {
+                c.violation("nsec3:bitmap-accessors", &format!("NSEC3 {}: {}", text, e), c.replay_of(fam, idx, ex()));
+                return;
+            }
+            Err(pi) => {
+                c.violation(&format!("panic:{}", pi.site()), &format!("panic probing a generated type bitmap: {} at {}:{}", pi.msg, pi.file, pi.line), c.replay_of(fam, idx, ex()));
+                return;
+            }
         }
         obs.push((h, next, bm, rd[1], u16::from_be_bytes([rd[2], rd[3]]), rd[5..5 + sl].to_vec(), r.ttl().as_secs()));
         if let Some(f) = log {
